@@ -73,7 +73,7 @@ FORMATS = ['csv', 'csv', 'csv', 'tsv', 'pickle', 'json', 'jsonlines',
 def budget(tier):
     if tier == 'quick':
         return {'cases': 30000, 'wall_cap_s': 240}
-    return {'cases': 400000, 'wall_cap_s': 1500}
+    return {'cases': 1500000, 'wall_cap_s': 1500}
 
 
 def _table(rng, fmt, maxrows, nf=None, hdr=None):
